@@ -266,7 +266,7 @@ def run_driver(h, cfg):
                 Xw0 = h.arr([sum(Xc[i, j] * w0[j] for j in range(p)) + b0 for i in range(n)])
             else:
                 Xw0 = Xc @ np.asarray(w0[:p]) + b0
-        if meta.get('positive') or meta.get('box') is not None:
+        if (meta.get('positive') or meta.get('box') is not None) and not cfg.get('infeasible_start'):
             for j in range(p):
                 h.assume(w0[j] >= 0)
                 if meta.get('box') is not None:
